@@ -161,14 +161,26 @@ pub struct HistoryResult {
     /// (position in history, what went wrong)
     pub bad: Option<(usize, String, String)>,
     pub io_calls: u64,
+    /// the transient read error was actually delivered
+    pub eio_fired: bool,
 }
 
 /// Run one history (indices into `qs`) on a single fresh handle; compare each answer.
 pub fn run_history(bytes: &Arc<Vec<u8>>, qs: &[Q], fresh: &[Result<Ans, String>], hist: &[usize], faults: Option<(u8, u8, u64)>) -> HistoryResult {
+    run_history_eio(bytes, qs, fresh, hist, faults, None)
+}
+
+/// `eio` = (position in the history, n): the n-th read call the archive handle makes during
+/// that query fails ONCE with EIO (transient medium error). That query may answer Err; it and
+/// every other query must otherwise answer like a fresh handle on a healthy file.
+pub fn run_history_eio(bytes: &Arc<Vec<u8>>, qs: &[Q], fresh: &[Result<Ans, String>], hist: &[usize], faults: Option<(u8, u8, u64)>, eio: Option<(usize, u64)>) -> HistoryResult {
     let mut world = World::new();
+    if eio.is_some() {
+        world.faults.target = PATH.to_string();
+    }
     world.files.insert(PATH.to_string(), Arc::new(std::sync::Mutex::new(bytes.as_ref().clone())));
     if let Some((short, eintr, seed)) = faults {
-        world.faults = FaultPlan { short_read_pct: short, eintr_read_pct: eintr, rng: seed, ..Default::default() };
+        world.faults = FaultPlan { short_read_pct: short, eintr_read_pct: eintr, rng: seed, target: world.faults.target.clone(), ..Default::default() };
     }
     let qs2: Vec<Q> = hist.iter().map(|&i| qs[i].clone()).collect();
     let (res, world) = run_plain(world, move || {
@@ -177,7 +189,12 @@ pub fn run_history(bytes: &Arc<Vec<u8>>, qs: &[Q], fresh: &[Result<Ans, String>]
             Err(e) => return vec![Err(e)],
         };
         let mut out = Vec::new();
-        for q in &qs2 {
+        for (qpos, q) in qs2.iter().enumerate() {
+            if let Some((at, n)) = eio {
+                ragc_common::verif::with(|w| {
+                    w.faults.read_fail_at_call = if at == qpos { Some(w.faults.read_calls + n) } else { None };
+                });
+            }
             let r = std::panic::catch_unwind(std::panic::AssertUnwindSafe(|| ask(&mut d, q)));
             match r {
                 Ok(a) => out.push(Ok(a)),
@@ -192,28 +209,35 @@ pub fn run_history(bytes: &Arc<Vec<u8>>, qs: &[Q], fresh: &[Result<Ans, String>]
         out
     });
     let io_calls = world.io_calls;
+    let eio_fired = world.fault_fired.get("eio_read_call").copied().unwrap_or(0) > 0;
     let answers = match res {
         Ok(a) => a,
-        Err(p) => return HistoryResult { bad: Some((0, "panic".into(), p)), io_calls },
+        Err(p) => return HistoryResult { bad: Some((0, "panic".into(), p)), io_calls, eio_fired },
     };
     for (pos, (a, &qi)) in answers.iter().zip(hist.iter()).enumerate() {
         let exp = &fresh[qi];
         match (a, exp) {
             (Err(p), _) => {
-                return HistoryResult { bad: Some((pos, "panic".into(), format!("{:?} after {:?} panicked: {p}", qs[qi], hist[..pos].iter().map(|&i| &qs[i]).collect::<Vec<_>>()))), io_calls };
+                return HistoryResult { bad: Some((pos, "panic".into(), format!("{:?} after {:?} panicked: {p}", qs[qi], hist[..pos].iter().map(|&i| &qs[i]).collect::<Vec<_>>()))), io_calls, eio_fired };
             }
             (Ok(a), Ok(e)) => {
+                // the query that met the injected read error may fail, never answer wrongly
+                let faulted_here = eio_fired && eio.map(|(at, _)| at == pos).unwrap_or(false);
+                if faulted_here && *a == Ans::Err {
+                    continue;
+                }
                 if a != e {
                     return HistoryResult {
                         bad: Some((pos, "history-dependent-answer".into(), format!("{:?} after {:?}: answered {:?}, a fresh handle answers {:?}", qs[qi], hist[..pos].iter().map(|&i| &qs[i]).collect::<Vec<_>>(), a, e))),
                         io_calls,
+                        eio_fired,
                     };
                 }
             }
             (Ok(_), Err(_)) => {} // the fresh handle itself panicked: reported separately
         }
     }
-    HistoryResult { bad: None, io_calls }
+    HistoryResult { bad: None, io_calls, eio_fired }
 }
 
 // ------------------------------------------------------------------------------------------
